@@ -276,6 +276,7 @@ def check_seq(ctx, ops, tag):
     # ---- the property on the implementation's history
     owner = {}      # idx -> client
     revoked_by_owner = set()
+    refresh_revoked = set()
     refreshed_from = {}
     scopes = {}
     has_refresh = {}
@@ -297,6 +298,8 @@ def check_seq(ctx, ops, tag):
                     ctx.violation("C09:refresh:other-client", "a refresh succeeded for a token of another client", case)
                 if i in refreshed_from or i in revoked_by_owner and True is False:
                     pass
+                if i in refresh_revoked:
+                    ctx.violation("C09:refresh:after-refresh-token-revocation", "a refresh token that its owner had revoked was accepted at the token endpoint", case)
                 if i in refreshed_from:
                     ctx.violation("C09:refresh:reused-refresh-token", "a refresh token handed to the integrator for revocation was accepted again", case)
                 if not scopes[x[1]] <= scopes[i]:
@@ -309,6 +312,8 @@ def check_seq(ctx, ops, tag):
                 found = (ref[0] == "access" and hint in (None, "access_token")) or (ref[0] == "refresh" and hint in (None, "refresh_token") and has_refresh[ref[1]])
                 if found:
                     revoked_by_owner.add(ref[1])
+                    if ref[0] == "refresh":
+                        refresh_revoked.add(ref[1])
         if o["op"] == "revoke" and isinstance(o["token"], list) and o["token"][1] in owner and o["cred"] and o["cred"][0] in ("c1", "c2", "rs") \
                 and o["cred"][1] in ("s1", "s2", "s3") and owner[o["token"][1]] != o["cred"][0] and x[0] == "ok":
             hint = o.get("hint")
